@@ -35,6 +35,15 @@ func (k *Keeper) GetDeposit(ctx sdk.Context, addr sdk.AccAddress) (deposit types
 }
 
 // GetDeposits retrieves all deposits stored in the module's KVStore.
+func (k *Keeper) DeleteDeposit(ctx sdk.Context, addr sdk.AccAddress) {
+	var (
+		store = k.Store(ctx)
+		key   = types.DepositKey(addr)
+	)
+
+	store.Delete(key)
+}
+
 func (k *Keeper) GetDeposits(ctx sdk.Context) (items types.Deposits) {
 	var (
 		store = k.Store(ctx)
@@ -120,7 +129,12 @@ func (k *Keeper) SendCoinsFromDepositToAccount(ctx sdk.Context, fromAddr, toAddr
 		return err
 	}
 
-	k.SetDeposit(ctx, deposit)
+	if deposit.Coins.IsZero() {
+		k.DeleteDeposit(ctx, fromAddr)
+	} else {
+		k.SetDeposit(ctx, deposit)
+	}
+
 	ctx.EventManager().EmitTypedEvent(
 		&types.EventSubtract{
 			Address: fromAddr.String(),
@@ -148,7 +162,12 @@ func (k *Keeper) SendCoinsFromDepositToModule(ctx sdk.Context, fromAddr sdk.AccA
 		return err
 	}
 
-	k.SetDeposit(ctx, deposit)
+	if deposit.Coins.IsZero() {
+		k.DeleteDeposit(ctx, fromAddr)
+	} else {
+		k.SetDeposit(ctx, deposit)
+	}
+
 	ctx.EventManager().EmitTypedEvent(
 		&types.EventSubtract{
 			Address: fromAddr.String(),
